@@ -706,7 +706,7 @@ of its own, with the trailing-separator policy `nt`), each prefixed with `indent
 the paragraph's trailing separator is kept -/
 def indentPara (indent sep : List α) (nt : Bool) (p : List α) : List α :=
   joinWith sep ((Spec.bareLines p sep nt).map (indent ++ ·) ++
-    (if !nt ∧ sep.isSuffixOf p then [[]] else []))
+    (if !nt ∧ (Spec.bareLines p sep nt).length < (splitOn p sep).length then [[]] else []))
 
 /-- a callback that ignores index and affixes -/
 theorem applyParasM_ignoring (ed : Editor α)
@@ -732,7 +732,9 @@ theorem indent_callback (indent : List α) (o : Options α) (p : List α) :
     (do let e ← (Editor.root p o).applyOpts cx (fun (_ : Nat) (line : List α) => [indent ++ line]) o
         e.string cx) =
       .ok (indentPara indent (o.withDefaults cx).lineSep (o.withDefaults cx).noTrailing p) := by
-  rw [applyOpts_map cx (Editor.root p o) (indent ++ ·) o, ok_bind, inLines_eq]
+  rw [applyOpts_map cx (Editor.root p o) (indent ++ ·) o, ok_bind]
+  unfold trailing
+  rw [inLines_eq]
   rfl
 
 end indent
@@ -937,11 +939,12 @@ namespace ParaStructure
 
 /-! ## the per-paragraph results and the non-paragraph operations on the single paragraph
 
-For a line separator without a proper border the per-paragraph result of Align / Justify IS the
-result of the same operation, non-paragraph mode, on the paragraph as an editor of its own (with the
-default trailing-separator policy, since Align and Justify go through `tb.New`).  For Indent and
-Wrap this holds for EVERY line separator (bordered, even empty): both modes use the same
-`isSuffixOf` test for the trailing line separator of the paragraph. -/
+For EVERY non-empty line separator (also a self-overlapping one) the per-paragraph result of Align /
+Justify IS the result of the same operation, non-paragraph mode, on the paragraph as an editor of its
+own (with the default trailing-separator policy, since Align and Justify go through `tb.New`):
+`tb.New` and `ApplyOpts` use the same rule "the last piece of the split is empty" for the trailing
+line separator.  For Indent and Wrap this holds for every line separator too (even the empty one):
+both modes use the same test for the trailing line separator of the paragraph. -/
 section link
 variable (cx : Ctx α)
 
@@ -1001,23 +1004,86 @@ theorem joinWith_append_nil_piece (sep : List α) :
       joinWith_append_nil_piece sep (y :: t) (by simp), joinWith_cons_cons]
     simp only [List.append_assoc]
 
-/-- the trailing flag as the extra empty line of the non-paragraph closed forms -/
-theorem join_trailing_eq (p sep : List α) (hsep : sep ≠ []) (hu : Unbordered sep)
+/-- `tb.New` sets the trailing flag exactly when the editor's line list (default policy) dropped a
+final empty piece of a non-empty text — for every separator -/
+theorem Block.new_trailing_iff (p sep : List α) :
+    (Block.new p sep).trailing = true ↔
+      (p ≠ [] ∧ (Spec.bareLines p sep false).length < (splitOn p sep).length) := by
+  rw [Spec.bareLines_length_lt_iff]
+  unfold Block.new
+  dsimp only
+  by_cases hp : p = []
+  · subst hp
+    rw [if_pos List.isEmpty_nil]
+    simp
+  · rw [if_neg (by simpa using hp)]
+    have hj := joinWith_splitOn_all p sep
+    have hne : splitOn p sep ≠ [] := splitOn_ne_nil p sep (.inl hp)
+    generalize splitOn p sep = ls at *
+    have hl : ls.getLast? = some (ls.getLastD []) := by
+      rw [List.getLastD_eq_getLast?]
+      cases h : ls.getLast? with
+      | none => exact absurd (List.getLast?_eq_none_iff.1 h) hne
+      | some x => rfl
+    by_cases hc : ls.length > 1 ∧ (ls.getLast? == some []) = true
+    · rw [if_pos hc]
+      have h2 := hc.2
+      rw [hl] at h2
+      exact ⟨fun _ => ⟨hp, rfl, by simpa using h2, hne⟩, fun _ => rfl⟩
+    · rw [if_neg hc]
+      refine ⟨fun h => Bool.noConfusion h, fun h => ?_⟩
+      exfalso
+      apply hc
+      obtain ⟨-, -, h2, -⟩ := h
+      refine ⟨?_, by rw [hl, h2]; rfl⟩
+      cases ls with
+      | nil => exact absurd rfl hne
+      | cons x t =>
+        cases t with
+        | nil =>
+          exfalso
+          apply hp
+          rw [← hj, joinWith_singleton]
+          simpa [List.getLastD] using h2
+        | cons y u => simp only [List.length_cons]; omega
+
+/-- the trailing flag as the extra empty line of the non-paragraph closed forms (`trailing` of
+OpsStructure for the paragraph as an editor of its own) — for every non-empty separator -/
+theorem join_trailing_eq (p sep : List α) (hsep : sep ≠ [])
     (ls' : List (List α)) (hlen : ls'.length = (Spec.bareLines p sep false).length) :
     joinWith sep ls' ++ (if (Block.new p sep).trailing then sep else []) =
-      joinWith sep (ls' ++ (if !false ∧ sep.isSuffixOf p then [[]] else [])) := by
-  rw [Block.new_trailing p sep hsep hu]
-  by_cases hs : sep.isSuffixOf p = true
-  · have ht : (Block.new p sep).trailing = true := by rw [Block.new_trailing p sep hsep hu, hs]
-    have hne : ls' ≠ [] := by
-      intro h0
-      rw [h0, ← Block.new_lines] at hlen
-      have := Block.new_trailing_of_nil p sep (List.length_eq_zero_iff.1 hlen.symm)
-      rw [ht] at this
-      exact absurd this (by decide)
-    simp only [hs, if_true, Bool.not_false, and_self]
-    rw [joinWith_append_nil_piece sep ls' hne]
-  · simp only [hs, Bool.false_eq_true, if_false, and_false, List.append_nil]
+      joinWith sep (ls' ++ (if !false ∧
+        (Spec.bareLines p sep false).length < (splitOn p sep).length then [[]] else [])) := by
+  have hiff := Block.new_trailing_iff p sep
+  by_cases hp : p = []
+  · subst hp
+    have ht : (Block.new ([] : List α) sep).trailing = false := by
+      rw [Bool.eq_false_iff]; intro h; exact (hiff.1 h).1 rfl
+    have hb : Spec.bareLines ([] : List α) sep false = [] := by
+      unfold Spec.bareLines; rw [splitOn_nil sep hsep]; rfl
+    rw [hb] at hlen
+    have : ls' = [] := List.length_eq_zero_iff.1 hlen
+    subst this
+    rw [ht, hb, splitOn_nil sep hsep]
+    rfl
+  · by_cases hc : (Spec.bareLines p sep false).length < (splitOn p sep).length
+    · have ht : (Block.new p sep).trailing = true := hiff.2 ⟨hp, hc⟩
+      have hne : ls' ≠ [] := by
+        intro h0
+        rw [h0, ← Block.new_lines] at hlen
+        have := Block.new_trailing_of_nil p sep (List.length_eq_zero_iff.1 hlen.symm)
+        rw [ht] at this
+        exact absurd this (by decide)
+      rw [ht, if_pos rfl,
+        if_pos (show (!false) = true ∧ (Spec.bareLines p sep false).length < (splitOn p sep).length
+          from ⟨rfl, hc⟩),
+        joinWith_append_nil_piece sep ls' hne]
+    · have ht : (Block.new p sep).trailing = false := by
+        rw [Bool.eq_false_iff]; intro h; exact hc (hiff.1 h).2
+      rw [ht, if_neg (by decide : ¬ (false = true)),
+        if_neg (show ¬ ((!false) = true ∧
+          (Spec.bareLines p sep false).length < (splitOn p sep).length) from fun h => hc h.2),
+        List.append_nil, List.append_nil]
 
 /-- the options of the single paragraph seen as an editor of its own: non-paragraph mode, default
 trailing-separator policy -/
@@ -1036,38 +1102,37 @@ theorem single_fields (o : Options α) :
 /-- **Align**: the per-paragraph result is `AlignOpts` (non-paragraph mode) of the paragraph -/
 theorem alignOpts_single (align width : Int) (o : Options α)
     (hal : align = Gen.alignLeft ∨ align = Gen.alignRight ∨ align = Gen.alignCenter)
-    (hsep : (o.withDefaults cx).lineSep ≠ []) (hu : Unbordered (o.withDefaults cx).lineSep)
+    (hsep : (o.withDefaults cx).lineSep ≠ [])
     (p : List α) :
     (Editor.root p (single o)).alignOpts cx align width (single o) =
       .ok (Editor.root (alignParaWith (fun l => alignFn cx align l width)
         (o.withDefaults cx).lineSep p) (single o)) := by
   obtain ⟨h1, h2, h3, -⟩ := single_fields cx o
-  rw [alignOpts_structure cx _ align width _ hal h3, inLines_eq]
+  rw [alignOpts_structure cx _ align width _ hal h3]
   unfold trailing
-  rw [h1, h2, alignParaWith_eq, join_trailing_eq p _ hsep hu _ (List.length_map _)]
+  rw [inLines_eq, h1, h2, alignParaWith_eq, join_trailing_eq p _ hsep _ (List.length_map _)]
   rfl
 
 /-- **Justify**: the per-paragraph result is `JustifyOpts` (non-paragraph mode) of the paragraph -/
 theorem justifyOpts_single (hs : cx.Sane) (hd : cx.dLineSep ≠ []) (width : Int) (o : Options α)
-    (hu : Unbordered (o.withDefaults cx).lineSep) (p : List α) :
+    (p : List α) :
     (Editor.root p (single o)).justifyOpts cx width (single o) =
       .ok (Editor.root (justifyParaWith (fun l => justified cx l width)
         (o.withDefaults cx).lineSep (o.withDefaults cx).justifyLast p) (single o)) := by
   obtain ⟨h1, h2, h3, h4⟩ := single_fields cx o
   have hsep := withDefaults_lineSep_ne_nil cx hd o
-  rw [justifyParaWith_eq, join_trailing_eq p _ hsep hu _ (justifyLines_length _ _ _)]
+  rw [justifyParaWith_eq, join_trailing_eq p _ hsep _ (justifyLines_length _ _ _)]
   unfold justifyLines
   cases hjl : (o.withDefaults cx).justifyLast with
   | true =>
-    rw [justifyOpts_all_sane cx hs _ width _ h3 (by rw [h4, hjl]), inLines_eq]
+    rw [justifyOpts_all_sane cx hs _ width _ h3 (by rw [h4, hjl])]
     unfold trailing
-    rw [h1, h2]
+    rw [inLines_eq, h1, h2]
     rfl
   | false =>
-    rw [justifyOpts_notLast_closed_sane cx hs hd _ width _ h3 (by rw [h4, hjl])
-      (by rw [h1]; exact hu), inLines_eq]
+    rw [justifyOpts_notLast_closed_sane cx hs hd _ width _ h3 (by rw [h4, hjl])]
     unfold trailing
-    rw [h1, h2]
+    rw [inLines_eq, h1, h2]
     rfl
 
 /-- **Indent**: the per-paragraph result is `IndentOpts` (non-paragraph mode, same trailing
@@ -1091,9 +1156,9 @@ theorem indentOpts_single (level : Int) (o : Options α) (hl : 1 ≤ level) (p :
   dsimp only
   rw [repeatStr_of_nonneg _ _ (by omega), ok_bind, h5]
   simp only [Bool.false_eq_true, if_false]
-  rw [applyOpts_map cx _ (_ ++ ·), inLines_eq]
+  rw [applyOpts_map cx _ (_ ++ ·)]
   unfold trailing indentPara
-  rw [e1, e2, e4]
+  rw [inLines_eq, e1, e2, e4]
   rfl
 
 /-- **Wrap**, given the wrapped lines of the paragraph (any context): the per-paragraph result is
@@ -1239,7 +1304,7 @@ example : ∃ r rs, exPara.alignOpts testCtx Gen.alignLeft 4 exOpts = .ok r ∧
 example : (Editor.root [97, 32, 98, 0, 99, 32, 100] (single exOpts)).alignOpts testCtx
       Gen.alignLeft 4 (single exOpts) =
     .ok (.root [97, 32, 98, 32, 0, 99, 32, 100, 32] (single exOpts)) := by
-  rw [alignOpts_single testCtx Gen.alignLeft 4 exOpts (.inl rfl) (by decide) (by decide)]
+  rw [alignOpts_single testCtx Gen.alignLeft 4 exOpts (.inl rfl) (by decide)]
   congr 1
 
 /-- `AffixFree` cannot be dropped from the Wrap closed form: with the paragraph separator
